@@ -72,7 +72,9 @@ def scanAux (ps : Bool) : Nat → List Char → List ScanItem
   | n + 1, c :: '(' :: t =>
       if c = '$' || (ps && (c = '<' || c = '>')) then
         match findEnd (t.length + 1) t 1 true none [] with
-        | .found inner rest rel => .sub (String.ofList inner) rel :: scanAux ps n rest
+        | .found inner rest rel =>
+          -- whether a `'` quotes depends on context the scan does not have: what it seems to quote is scanned too
+          (if inner.contains '\'' then scanAux ps n inner else []) ++ (.sub (String.ofList inner) rel :: scanAux ps n rest)
         | .none rel =>
           (if rel then [] else [ScanItem.unanalyzable (String.ofList (c :: '(' :: t))]) ++ scanAux ps n ('(' :: t)
       else if c = '`' then
